@@ -624,6 +624,41 @@ def main(tier):
                     chk.skip("6-sigma-excursion-not-confirmed-on-fresh-seeds")
         # ---- 6. negative / positive controls of the trace specification
         run_controls(chk, d, entries)
+    # ---- 7. results held across later calls, at sample counts where the outputs are large (a result belongs to its
+    # call: a later call of the same shape must not change it).  Grain k of snapshot i is tagged by its volume and by
+    # entry [0][0] of its matrix, so membership and pairing can be read off the samples themselves.
+    import pydrex.stats as _stats
+
+    for N, M, ns in ((3, 7, 100_000), (1, 4, 250_000), (3, 7, 100_000)) if quick else ((3, 7, 100_000), (1, 4, 1_000_000), (2, 50, 400_000), (3, 7, 100_000)):
+        held = []
+        for call in range(3):
+            rng = np.random.default_rng([abs(SEED), N, M, ns, call])
+            f = rng.random((N, M)) + 0.05
+            f /= f.sum(axis=1, keepdims=True)
+            o = np.zeros((N, M, 3, 3))
+            o[:, :, 0, 0] = f + 10.0 * (call + 1)          # tag: the grain's own volume, offset by the call
+            o[:, :, 1, 1] = o[:, :, 2, 2] = 1.0
+            try:
+                ro, rf = _stats.resample_orientations(o, f, n_samples=ns, seed=call + 1)
+                ro, rf = np.asarray(ro), np.asarray(rf)
+            except Exception as ex:  # noqa: BLE001
+                chk.violation(dict(clause="raised", n="large", exc=type(ex).__name__), f"resample_orientations raised {ex!r} for N={N}, M={M}, n_samples={ns}", dict(kind="held-results", N=N, M=M, ns=ns))
+                break
+            chk.count(("held-large", N, M, ns, call))
+            held.append((call, f, ro, rf, ro[:, :, 0, 0].copy(), rf.copy()))
+            for c0, f0, ro0, rf0, tag0, vol0 in held:
+                ok_shape = ro0.shape == (N, ns, 3, 3) and rf0.shape == (N, ns)
+                unchanged = ok_shape and np.array_equal(ro0[:, :, 0, 0], tag0) and np.array_equal(rf0, vol0)
+                own = ok_shape and all(np.isin(rf0[i], f0[i]).all() for i in range(N)) and np.array_equal(ro0[:, :, 0, 0], rf0 + 10.0 * (c0 + 1))
+                if not (unchanged and own):
+                    chk.violation(dict(clause="held-result-changed-by-a-later-call" if ok_shape and not unchanged else "sample-not-an-input-grain-of-its-snapshot", n="large"),
+                                  f"the result of call {c0} (N={N}, M={M}, n_samples={ns}) examined after call {call}: " + ("its arrays were overwritten" if ok_shape and not unchanged else "samples are not (orientation, volume) pairs of its own input"),
+                                  dict(kind="held-results", N=N, M=M, ns=ns, earlier=c0, later=call))
+                    held = []
+                    break
+            else:
+                continue
+            break
     return chk.finish(
         rule="table: every (orientation shape, fraction shape, n_samples) entry of the TLC-enumerated shape table, replayed as ndarray and as nested lists, distinct by tuple; "
         "scenarios: N in {1,3} x M in {1,2,5,50} x volume class (uniform, zeros, duplicates, dominant, random simplex; rational k/D) x n_samples in {1, default, M, 1e4[, 137, 1e6]} x seeded repetitions; "
